@@ -4,13 +4,21 @@ import json, os, sys, importlib
 ROOT = os.path.dirname(os.path.dirname(os.path.abspath(__file__)))
 sys.path.insert(0, ROOT)
 ALL = ["C%02d" % i for i in range(1, 21)]
+# properties whose check is complete and has been run by the orchestrator on the unchanged tree
+CLAIMED = [l.strip() for l in open(os.path.join(ROOT, "claimed.txt")) if l.strip() and not l.startswith("#")]
 NOT_YET = "check not built yet in this round (planned: DESIGN.md section 6); not claimed until model, theorems and tie exist"
+
+def hook_commits():
+    import subprocess
+    out = subprocess.run(["git", "-C", "/repo", "log", "--format=%h %s"], capture_output=True, text=True).stdout
+    return [l for l in out.splitlines() if l.split(" ", 1)[1].startswith("verif hooks:")]
+
 
 def main():
     checks, na = [], []
     for pid in ALL:
         path = os.path.join(ROOT, "props", pid.lower() + ".py")
-        if not os.path.exists(path):
+        if not os.path.exists(path) or pid not in CLAIMED:
             na.append({"property_id": pid, "reason": NOT_YET})
             continue
         m = importlib.import_module("props." + pid.lower())
@@ -35,7 +43,7 @@ def main():
             "guard": "--cfg yamaquasi_verif",
             "enable": "harness/.cargo/config.toml sets rustflags = [\"--cfg\", \"yamaquasi_verif\"] for the harness build (path dependency on /repo)",
             "baseline_off_cmd": "cd /repo && cargo test --workspace --no-fail-fast --offline",
-            "source_commits": json.load(open(os.path.join(ROOT, "hooks.json")))["source_commits"],
+            "source_commits": hook_commits(),
             "add_only": True,
         },
         "engines": [
